@@ -16,6 +16,7 @@ import WuffsVerif.Proof.Flate.StoredEnc
 import WuffsVerif.Proof.Flate.Lookup4
 import WuffsVerif.Proof.Flate.TakeSpec
 import WuffsVerif.Proof.Flate.Canonical3
+import WuffsVerif.Proof.Flate.Total5
 
 namespace WuffsVerif.Props.C16
 open WuffsVerif.Flate WuffsVerif.Flate.Cut WuffsVerif.Flate.Spec
@@ -47,6 +48,47 @@ theorem zlibcut_lengths_in_bounds (encoded : Bytes) (limit : Int) (r : CutResult
     (h : ZlibCut.Cut encoded limit = .ok r) :
     (r.encodedLen : Int) ≤ limit ∧ r.encodedLen ≤ encoded.size ∧ r.encoded.size = encoded.size :=
   ZlibCut.Cut_lengths_in_bounds encoded limit r h
+
+/-- **Robustness half of the property: `flatecut.Cut` returns without panicking, for arbitrary bytes
+and any limit.**  In the model every slice/array access whose index is not a loop constant is
+checked and a failed check is the result `Err.panic`; every Go loop is a recursion on fuel and
+running out of it is `Err.fuel`.  Neither can happen: every index is in range (so the Go code has
+no index-out-of-range panic) and every loop terminates within its fuel (each iteration consumes at
+least one bit of the input or one code length).  Together with `cut_lengths_in_bounds` this is the
+property's clause "for arbitrary bytes Cut returns without panicking — with an error, or with
+lengths that stay inside the limit and the buffer". -/
+theorem cut_never_panics (w : Bool) (encoded : Bytes) (limit : Int) :
+    Cut.Cut w encoded limit ≠ .error .panic ∧ Cut.Cut w encoded limit ≠ .error .fuel :=
+  ⟨fun h => (Cut.Cut_total w encoded limit _ h).1 rfl, fun h => (Cut.Cut_total w encoded limit _ h).2 rfl⟩
+
+/-- … and so does `zlibcut.Cut` (including the write of the four Adler-32 bytes behind the cut). -/
+theorem zlibcut_never_panics (encoded : Bytes) (limit : Int) :
+    ZlibCut.Cut encoded limit ≠ .error .panic ∧ ZlibCut.Cut encoded limit ≠ .error .fuel :=
+  ⟨fun h => (ZlibCut.Cut_total encoded limit _ h).1 rfl, fun h => (ZlibCut.Cut_total encoded limit _ h).2 rfl⟩
+
+/-- `huffman.construct` is total on every length vector the cutter can hand it (lengths ≤ 15, at
+most 288 coded symbols): its only error is errInvalidBadHuffmanTree — `h.counts[x]++`,
+`h.symbols[offsets[length]]` and the 256 `slowDecode` calls of `constructLookUpTable` stay in range. -/
+theorem construct_never_panics (h0 : Huffman) (lengths : Array Nat) (hle : ∀ x ∈ lengths.toList, x ≤ 15)
+    (hroom : offAt lengths 16 ≤ h0.symbols.size) (hsz : h0.symbols.size < 2147483648) (e : Err)
+    (hc : h0.construct lengths = .error e) : e = .badHuffmanTree :=
+  Cut.construct_no_panic h0 lengths hle hroom hsz e hc
+
+/-- non-vacuity: the fixed literal/length code meets the hypotheses (`offAt lengths 16`, the number of
+coded symbols, is at most the alphabet size). -/
+example (lengths : Array Nat) (h : lengths.size ≤ 288) : offAt lengths 16 ≤ Huffman.zero.symbols.size := by
+  have := Cut.offAt_le_size lengths 16
+  simp [Huffman.zero, WuffsVerif.Gen.C16.maxNumCodes]; omega
+
+/-- The decoders of a constructed `huffman` are total and only return *coded* symbols (symbols of the
+alphabet whose length is not 0) — never a stale entry of `h.symbols`, which Go does not clear between
+blocks; a successful decode keeps the cursor invariant and consumes at least one bit. -/
+theorem decode_total_coded (h0 h : Huffman) (lengths : Array Nat) (ecb ecn : Nat)
+    (hc : h0.construct lengths = .ok (h, ecb, ecn)) (h0ok : h0.TableOK) (h0sz : h0.symbols.size = 288)
+    (hroom : offAt lengths 16 ≤ 288) (hlen : lengths.size ≤ 65536) (b : Bitstream) (hb : b.Inv) :
+    ∃ s b', h.decode b = .ok (s, b') ∧ b'.bytes = b.bytes ∧
+      (0 ≤ s → (∃ j : Nat, s = Int.ofNat j ∧ j < lengths.size ∧ lengths.getD j 0 ≠ 0) ∧ b'.Inv ∧ b.pos < b'.pos) :=
+  (Cut.construct_good h0 h lengths ecb ecn hc h0ok h0sz hroom hlen).decode hroom b hb
 
 /-- The block functions never leave the cursor outside the budget when they report `nil` or
 `errInternalSomeProgress` (the invariant `cut` relies on). -/
